@@ -147,9 +147,42 @@ def build_case(data):
     return case
 
 
+def sweep_cases(system):
+    """every rule application of the index (each shipped seen-rule pair x each result the grammar gives it) as a
+    two-leaf tree, once per format: pairs whose results differ only in features are met for certain, not by luck"""
+    idx = gen_tree.rule_index(system)
+    out = []
+    for mr in idx.results:
+        for (mx, my, lab, sym, hl) in idx.by_result[mr]:
+            d = ('B', mr, ('L', mx), ('L', my), lab, sym, hl)
+            for fmt in FORMATS[system]:
+                if system == 'ja':
+                    toks = [{'word': 'w0', 'surf': 'w0', 'base': '*', 'pos': '*'}, {'word': 'w1', 'surf': 'w1', 'base': '*', 'pos': '*'}] \
+                        if fmt == 'jigg_xml' else [{'word': 'w0'}, {'word': 'w1'}]
+                else:
+                    toks = [{'word': 'w0', 'lemma': 'w0', 'pos': 'NN', 'entity': 'O', 'chunk': 'XX'},
+                            {'word': 'w1', 'lemma': 'w1', 'pos': 'NN', 'entity': 'O', 'chunk': 'XX'}]
+                out.append({'kind': 'reader', 'format': fmt,
+                            'tree': {'system': system, 'licensed': True, 'deriv': gen_tree.deriv_json(d), 'tokens': toks}})
+    return out
+
+
 def shard(ctx, shard_index, nshards):
     for lang in ('en', 'ja'):
         gen_tree.rule_index(lang)
+    k = 0
+    for system in ('en', 'ja'):
+        for case in sweep_cases(system):
+            k += 1
+            if k % nshards != shard_index:
+                continue
+            info = {}
+            fails = check_case(case, info)
+            ctx.case(case, info.get('derivable', 0) >= 1, cls=f"reader/{case['format']}/{system}/every-rule-application",
+                     sample={'format': case['format'], 'system': system, 'derivable_binary_nodes': info.get('derivable')})
+            ctx.report_direct(fails, case)
+    if shard_index == 0:
+        ctx.notes['reader_sweep_rule_applications'] = k
 
     def factory():
         @seed(runner.hseed(ctx, 1212))
